@@ -143,7 +143,8 @@ def generate(rng: random.Random, tier: str) -> dict:
     for k, e in enumerate(events):
         e["m"] = f"mk{k}"
     sibling = {"at": rng.choice([0, 1, 300, 1300])} if (regime == "per_request_streams" and rng.random() < 0.3) else None
-    return {"v": 1, "sibling": sibling, "abandoned": abandoned, "reuse_id": reuse, "post_lat": post_lat, "uuid_seed": rng.getrandbits(40), "mode": rng.choice(["parse_message", "model_validate"]),
+    earlier_attempt = rng.choice([1, 30]) if (regime == "per_request_streams" and rng.random() < 0.3) else None
+    return {"v": 1, "earlier_attempt": earlier_attempt, "sibling": sibling, "abandoned": abandoned, "reuse_id": reuse, "post_lat": post_lat, "uuid_seed": rng.getrandbits(40), "mode": rng.choice(["parse_message", "model_validate"]),
             "carrier": carrier, "regime": regime, "coalesce": rng.random() < 0.6,
             "callers": callers, "events": events}
 
@@ -369,6 +370,12 @@ def execute(scn: dict) -> dict:
                 if c.get("token"):
                     kw["cancellation_token"] = sm.CancellationToken()
                 my_rr = rr
+                if "_client" in st and scn.get("earlier_attempt") and i == 0:
+                    # an earlier attempt under the same id that was never answered: its caller gave up and closed its stream
+                    dead = st["_client"].new_request_stream(str(c["mid"]))
+                    await anyio.sleep(ticks(scn["earlier_attempt"]))
+                    dead.close()
+                    sim.fault("earlier_unanswered_attempt_under_the_same_id")
                 if "_client" in st:
                     my_rr = RecRecv(sim, st["_client"].new_request_stream(str(c["mid"])))
                     st.setdefault("_extra_rr", []).append(my_rr)
